@@ -268,6 +268,35 @@ func c02ApplyPresentationDefect(c c02Case, r *c02Request, d c02Defect, aud strin
 			}
 			r.Map = nm
 		}
+	case "nothing_presented":
+		// no credential at all is presented for a definition that requires some
+		m := r.main()
+		m.Creds = nil
+		r.VPs, r.Main = []*c02VPPlan{m}, 0
+		named := r.Map // descriptor_map that still names the descriptors (paths lead nowhere)
+		for i := range named {
+			named[i].VP = 0
+		}
+		r.Map = nil
+		switch d.Arg % 8 {
+		case 0: // empty envelope, empty descriptor_map, right definition
+			r.Assertion = c02Ptr("[]")
+		case 1: // one credential-less presentation of the honest signer
+		case 2: // a credential-less presentation of an unrelated DID
+			m.Signer = c02KeyOther
+		case 3: // empty envelope, descriptor_map names the descriptors
+			r.Assertion = c02Ptr("[]")
+			r.Map = named
+		case 4: // credential-less presentation, descriptor_map names the descriptors
+			r.Map = named
+		case 5: // empty envelope, another definition's id
+			r.Assertion = c02Ptr("[]")
+			r.DefID = "no-such-definition"
+		case 6: // two credential-less presentations
+			r.VPs = append(r.VPs, r.newVP(c, m.Signer, aud, r.sideNonce(c, "-n")))
+		case 7: // credential-less presentation of the forger key holder (unknown to everybody)
+			m.Signer = c02KeyForger
+		}
 	case "forged_map":
 		k := (d.Arg / 5) % len(r.Map)
 		switch d.Arg % 5 {
@@ -512,7 +541,7 @@ var c02LongWindows = []struct {
 // order in which presentation defects are applied (structure first, options last)
 var c02DefectOrder = []string{
 	"signer_not_subject", "foreign_cred_in_vp", "mixed_subjects", "mixed_subjects_via_empty_vp",
-	"foreign_definition", "unfulfilled", "forged_map",
+	"foreign_definition", "unfulfilled", "forged_map", "nothing_presented",
 	"bad_vp_sig", "bad_vc_sig", "cred_revoked", "cred_expired",
 	"aud_wrong", "aud_absent", "aud_near_miss", "aud_equivalent", "aud_array_contains", "validity_long", "validity_no_exp", "validity_stale", "nonce_missing",
 	"scope_unknown", "scope_other", "scope_near_miss", "param_missing", "garbage",
@@ -538,7 +567,7 @@ func (fx *c02Fixture) render(x *h.Ctx, r *c02Request) c02Rendered {
 		vp := r.VPs[e.VP]
 		path := "$.verifiableCredential"
 		format := r.VPs[e.VP].Format // placeholder, replaced below
-		if e.OOR {
+		if e.OOR || e.Cred >= len(vp.Creds) {
 			path = "$.verifiableCredential[7]"
 			format = vc.JWTCredentialProofFormat
 		} else {
